@@ -17,6 +17,10 @@ CHECKS = {
    text="Every object returned by the real validate under a random combination of coerce/default/add_missing_columns/strict='filter'/drop_invalid_rows/idempotent parsers is re-submitted to (a) the same schema with all parsing options off and (b) the same schema again, and must be accepted and returned bit-identical. pandas DataFrameSchema/SeriesSchema(+index) and polars DataFrame/LazyFrame.",
    note="Custom parsers are idempotent by construction; drop_invalid_rows is judged only for unique non-null row labels (documented limitation); >=2 nulls under unique not judged; a LazyFrame result that fails on collect is not judged.",
    ref="4/C03"),
+ "C04": dict(cat="exploration", tech="boundary monitor: deep bit-level snapshot of the argument (and of the frame it is a view of) before/after every real validate call; result container kind",
+   text="On every outermost validate(inplace=False) of generated workloads (all parsing options x pass / eager fail / lazy fail x DataFrameSchema, SeriesSchema, Column, Index, MultiIndex, polars DataFrameSchema and Column on DataFrame and LazyFrame) the argument is snapshotted bit-for-bit before and after, including when it is a column-subset view, row-slice view or a Series taken from a frame; the result's container kind must equal the argument's.",
+   note="Snapshot covers labels, order, dtypes, raw value bytes / typed cell reprs, index values/dtype/names, Series name; polars by schema + cell values. pandas attrs/flags are not compared.",
+   ref="4/C04"),
 }
 NOT_YET = {}
 
